@@ -22,6 +22,9 @@ def run_pty(argv, timeout=20):
     pid, fd = pty.fork()
     if pid == 0:
         try:
+            # the terminal has its size before the program can ask for it (set by the parent only, a start-up that
+            # wins the race sees a 0 x 0 terminal and waits for input without ever showing a prompt)
+            fcntl.ioctl(0, termios.TIOCSWINSZ, struct.pack("HHHH", 40, 120, 0, 0))
             resource.setrlimit(resource.RLIMIT_AS, (6 << 30, 6 << 30))
             resource.setrlimit(resource.RLIMIT_CORE, (0, 0))
         except Exception:
@@ -30,7 +33,7 @@ def run_pty(argv, timeout=20):
     fcntl.ioctl(fd, termios.TIOCSWINSZ, struct.pack("HHHH", 40, 120, 0, 0))
     out = b""
     t0 = time.time()
-    seen_ui, sent = False, 0
+    seen_ui, sent, nudges = False, 0, 0
     status = None
     while True:
         if time.time() - t0 > timeout:
@@ -57,6 +60,13 @@ def run_pty(argv, timeout=20):
                 pass
             sent += 1
             time.sleep(0.05)
+        elif time.time() - t0 > 5 + 3 * nudges and nudges < 40:
+            # still running after seconds: whatever it waits for, a "q" line ends an interactive session
+            try:
+                os.write(fd, b"q\n")
+            except OSError:
+                pass
+            nudges += 1
         w, st = os.waitpid(pid, os.WNOHANG)
         if w:
             status = st
@@ -267,7 +277,7 @@ class C26(Check):
                         shutil.rmtree(tmp, ignore_errors=True)
                     if evs[i]["outcome"] == "timeout":
                         with open(os.path.join(core.OUT, "failed-C26-timeout.json"), "w") as f:
-                            json.dump(cases[i], f)
+                            json.dump(dict(cases[i], seen=evs[i]), f)
                         raise core.Infra("start-up run timed out twice (case kept in out/failed-C26-timeout.json): "
                                          + json.dumps(cases[i])[:300])
         return [[e] for e in evs]
